@@ -220,6 +220,18 @@ Definition nonempty_keys (ks : list str) : nat :=
 Definition ptr_is_map (st : state) (p : ptr) : bool :=
   match deref st p with Some (HMap _) => true | _ => false end.
 
+(* the loop of MergeTree, parameterised by the editor of one entry *)
+Section MergeLoopH.
+  Variable ed : state -> iref -> str -> ptr -> bool * state * iref.
+  Fixpoint merge_loop_h (m : list (str * ptr)) (st : state) (tgt : iref) : bool * state * iref :=
+    match m with
+    | [] => (true, st, tgt)
+    | (k, v) :: m' =>
+        let '(ok, st1, tgt1) := ed st tgt k v in
+        if ok then merge_loop_h m' st1 tgt1 else (false, st1, tgt1)
+    end.
+End MergeLoopH.
+
 (** EditNode, MergeTree, AppendToString, AppendToList.
     Result: success, state, the head reference with updated flags. *)
 Fixpoint edit_node_h (wf : nat) (st : state) (head : iref) (key : str) (value : ptr) (mt : bool)
@@ -286,13 +298,7 @@ Fixpoint edit_node_h (wf : nat) (st : state) (head : iref) (key : str) (value : 
             | Some (HMap vm) =>
                 if merging then
                   let '(ok, st', target') :=
-                    (fix merge (m : list (str * ptr)) (st : state) (tgt : iref) : bool * state * iref :=
-                       match m with
-                       | [] => (true, st, tgt)
-                       | (k, v) :: m' =>
-                           let '(ok, st1, tgt1) := edit_node_h wf' st tgt k v true in
-                           if ok then merge m' st1 tgt1 else (false, st1, tgt1)
-                       end) vm st target in
+                    merge_loop_h (fun s t k v => edit_node_h wf' s t k v true) vm st target in
                   (ok, st', strip_cows depth target')
                 else (false, st, head)
             | None => (false, set_ub st, head)
@@ -308,13 +314,8 @@ Fixpoint edit_node_h (wf : nat) (st : state) (head : iref) (key : str) (value : 
     end
   end.
 
-Fixpoint merge_tree_h (wf : nat) (m : list (str * ptr)) (st : state) (tgt : iref) : bool * state * iref :=
-  match m with
-  | [] => (true, st, tgt)
-  | (k, v) :: m' =>
-      let '(ok, st1, tgt1) := edit_node_h wf st tgt k v true in
-      if ok then merge_tree_h wf m' st1 tgt1 else (false, st1, tgt1)
-  end.
+Definition merge_tree_h (wf : nat) (m : list (str * ptr)) (st : state) (tgt : iref) : bool * state * iref :=
+  merge_loop_h (fun s t k v => edit_node_h wf s t k v true) m st tgt.
 
 (** PatchLiteral::Resolve *)
 Fixpoint patch_literal_h (wf : nat) (m : list (str * ptr)) (st : state) (tgt : iref) : bool * state * iref :=
@@ -425,33 +426,36 @@ Definition heap_list_append (st : state) (a : nat) (v : ptr) : state :=
   end.
 
 (** ConvertFromYaml with a compiler *)
+Section ConvertLoops.
+  Variable conv : ydoc -> list iref -> list str -> state -> ptr * state.
+  Variables (a : nat) (ns : list iref) (ks : list str).
+  Fixpoint conv_seq (l : list ydoc) (i : nat) (st : state) : state :=
+    match l with
+    | [] => st
+    | c :: r =>
+        let '(p, st') := conv c (RListE a i :: ns) (idx_key i :: ks) st in
+        conv_seq r (S i) (heap_list_append st' a p)
+    end.
+  Fixpoint conv_map (m : list (str * ydoc)) (st : state) : state :=
+    match m with
+    | [] => st
+    | (k, c) :: r =>
+        let '(p, st') := conv c (RMapE a k :: ns) (k :: ks) st in
+        let '(consumed, st'') := parse_h st' ns ks k p in
+        conv_map r (if consumed then st'' else heap_map_set st'' a k p)
+    end.
+End ConvertLoops.
+
 Fixpoint convert (y : ydoc) (ns : list iref) (ks : list str) (st : state) {struct y} : ptr * state :=
   match y with
   | YNull => (None, st)
   | YScalar s => let '(a, st1) := alloc st (HScalar s) in (Some a, st1)
   | YSeq l =>
       let '(a, st1) := alloc st (HList []) in
-      let st2 :=
-        (fix each (l : list ydoc) (i : nat) (st : state) : state :=
-           match l with
-           | [] => st
-           | c :: r =>
-               let '(p, st') := convert c (RListE a i :: ns) (idx_key i :: ks) st in
-               each r (S i) (heap_list_append st' a p)
-           end) l 0 st1 in
-      (Some a, st2)
+      (Some a, conv_seq (fun c => convert c) a ns ks l 0 st1)
   | YMap m =>
       let '(a, st1) := alloc st (HMap []) in
-      let st2 :=
-        (fix each (m : list (str * ydoc)) (st : state) : state :=
-           match m with
-           | [] => st
-           | (k, c) :: r =>
-               let '(p, st') := convert c (RMapE a k :: ns) (k :: ks) st in
-               let '(consumed, st'') := parse_h st' ns ks k p in
-               each r (if consumed then st'' else heap_map_set st'' a k p)
-           end) m st1 in
-      (Some a, st2)
+      (Some a, conv_map (fun c => convert c) a ns ks m st1)
   end.
 
 (** AutoPatchConfigPlugin::ReviewCompileOutput *)
@@ -681,6 +685,20 @@ Definition link_h (ds : docs) (wf fuel : nat) (st : state) (id : str) : bool * s
   end.
 
 (** reading a heap value back as a tree *)
+Section ReadbackLoops.
+  Variable rb : ptr -> item * bool.
+  Fixpoint rb_list (l : list ptr) : list item * bool :=
+    match l with
+    | [] => ([], true)
+    | x :: r => let '(v, o1) := rb x in let '(vs, o2) := rb_list r in (v :: vs, o1 && o2)
+    end.
+  Fixpoint rb_map (m : list (str * ptr)) : list (str * item) * bool :=
+    match m with
+    | [] => ([], true)
+    | (k, x) :: r => let '(v, o1) := rb x in let '(vs, o2) := rb_map r in ((k, v) :: vs, o1 && o2)
+    end.
+End ReadbackLoops.
+
 Fixpoint readback (wf : nat) (h : heap) (p : ptr) : item * bool :=
   match wf with
   | 0 => (Null, false)
@@ -691,24 +709,8 @@ Fixpoint readback (wf : nat) (h : heap) (p : ptr) : item * bool :=
         match hget h a with
         | None => (Null, true)
         | Some (HScalar s) => (Scalar s, true)
-        | Some (HList l) =>
-            let '(vs, ok) :=
-              (fix each (l : list ptr) : list item * bool :=
-                 match l with
-                 | [] => ([], true)
-                 | x :: r => let '(v, o1) := readback wf' h x in
-                             let '(vs, o2) := each r in (v :: vs, o1 && o2)
-                 end) l in
-            (Lst vs, ok)
-        | Some (HMap m) =>
-            let '(vs, ok) :=
-              (fix each (m : list (str * ptr)) : list (str * item) * bool :=
-                 match m with
-                 | [] => ([], true)
-                 | (k, x) :: r => let '(v, o1) := readback wf' h x in
-                                  let '(vs, o2) := each r in ((k, v) :: vs, o1 && o2)
-                 end) m in
-            (Map vs, ok)
+        | Some (HList l) => let '(vs, ok) := rb_list (readback wf' h) l in (Lst vs, ok)
+        | Some (HMap m) => let '(vs, ok) := rb_map (readback wf' h) m in (Map vs, ok)
         end
     end
   end.
